@@ -175,10 +175,39 @@ func checkC07(c *harness.Check) {
 	} else {
 		seeds = append(seeds, 20260917)
 	}
-	c.Rule = fmt.Sprintf("table seeds %v; (a) every (node, move) of BFS closures + corner/e.p./promotion families: ZobristTable.Move(h,pos,m) == Hash(successor) and key->hash is a function and injective over all visited positions; (b) every push and every pop of all push sequences to depth n on game boards from castling/e.p./promotion/fortress roots: Board.Hash() == Hash(Position(),Turn()); (c) complete key-table probe through Hash: 768 piece-square keys, 15 castling-set differences, 16 e.p. keys, side key non-zero and pairwise distinct. distinct_nontrivial = distinct (move kind, rights lost, e.p. before/after) classes", seeds)
+	c.Rule = fmt.Sprintf("table seeds %v; (a) every (node, move) of BFS closures + corner/e.p./promotion families: ZobristTable.Move(h,pos,m) == Hash(successor) and key->hash is a function and injective over all visited positions; (b) every push and every pop of all push sequences to depth n on game boards from castling/e.p./promotion/fortress roots: Board.Hash() == Hash(Position(),Turn()); (c) complete key-table probe through Hash: 768 piece-square keys, 15 castling-set differences, 16 e.p. keys, side key non-zero and pairwise distinct - for the table seeds and for ~450 special seeds (0, +-1, powers of two and neighbours, extremes, well-known mixing constants with their negations and complements). distinct_nontrivial = distinct (move kind, rights lost, e.p. before/after) classes", seeds)
 	for _, s := range seeds {
 		keyTable(c, s)
 	}
+	// the key-table probe (800 keys, microseconds) over the seeds a generator is most likely to be
+	// weak for: 0, +-1, every power of two and its neighbours and negations, the extremes, and the
+	// well-known mixing constants (golden ratio, splitmix/murmur multipliers, pi) and their negations
+	// and complements - a generator with a fixed point or an all-zero state is typically offset by one
+	// of these, which only moves the bad seed
+	special := map[int64]bool{}
+	for k := 0; k < 64; k++ {
+		p := int64(1) << uint(k)
+		for _, v := range []int64{p, p - 1, p + 1, -p, -p - 1, -p + 1} {
+			special[v] = true
+		}
+	}
+	for _, u := range []uint64{0x9e3779b97f4a7c15, 0xbf58476d1ce4e5b9, 0x94d049bb133111eb, 0xff51afd7ed558ccd, 0xc4ceb9fe1a85ec53, 0x2545f4914f6cdd1d, 0x5851f42d4c957f2d, 0x14057b7ef767814f, 0x243f6a8885a308d3, 0x6a09e667f3bcc908, 0xdeadbeefcafebabe, 0x9e3779b9, 0x5bd1e995, 0xcc9e2d51, 0x1b873593, 88172645463325252} {
+		for _, v := range []uint64{u, -u, ^u, u >> 1, -(u >> 1)} {
+			special[int64(v)] = true
+		}
+	}
+	nSpecial := 0
+	for s := range special {
+		done := false
+		for _, t := range seeds {
+			done = done || t == s
+		}
+		if !done {
+			keyTable(c, s)
+			nSpecial++
+		}
+	}
+	c.SetExtra("special_seeds_key_table_probed", nSpecial)
 	c.Sample(map[string]any{"key_table_probe": "Hash({wN@g1}) xor Hash({}) etc.", "keys_per_seed": 800})
 
 	tables := make([]*board.ZobristTable, len(seeds))
